@@ -166,7 +166,7 @@ func c05r3(c *core.Ctx) {
 	p := c.P
 	for _, spec := range []struct {
 		fn, key string
-		site   func(ssa.Instruction) bool
+		site    func(ssa.Instruction) bool
 	}{{"(*secureSession).Decrypt", "decryptKey", isDecryptCall}, {"(*secureSession).Encrypt", "encryptKey", isSealCall}} {
 		f := p.Func("crypto", spec.fn)
 		if f == nil {
@@ -437,7 +437,9 @@ func c05r4(c *core.Ctx) {
 	}
 	for _, s := range core.FindCalls(dr, func(i ssa.Instruction) bool { return core.IsInvoke(i, mod+"/crypto.Decrypter", "Decrypt") }) {
 		failFact := core.NonNilFact(func(v ssa.Value) bool {
-			return core.AnySource(v, func(sv ssa.Value) bool { return core.CallResult(sv, 1, func(i ssa.Instruction) bool { return i == s }) != nil })
+			return core.AnySource(v, func(sv ssa.Value) bool {
+				return core.CallResult(sv, 1, func(i ssa.Instruction) bool { return i == s }) != nil
+			})
 		})
 		good, n := true, 0
 		core.EnumPaths(dr, 2, 20000, func(pa core.Path) {
